@@ -231,8 +231,8 @@ def compare_pairs(rep, drv, fam, pcs, per_chunk=12):
                     elif not ok:
                         why = "unexpected-error"
                     sig = {"fam": fam, "op": op, "mode": mode, "ca": pc["ca"], "cb": pc["cb"], "why": why}
-                    rep.violation(sig, {"cmd": "lua-run", "lua": "return " + single_expr(pc["A"], pc["B"], op), "mode": mode,
-                                        "expected": show(e), "observed": show_obs(ok, val)})
+                    rep.violation(sig, {"cmd": "lua-run", "kind": "expr", "lua": "return " + single_expr(pc["A"], pc["B"], op), "mode": mode,
+                                        "exp": e, "expected": show(e), "observed": show_obs(ok, val)})
             if matches(e, *got["lit"]) is None and got["lit"] != got["run"]:
                 # not determined by the model: the constant path and the run-time path must still agree
                 lo, ro = got["lit"], got["run"]
@@ -373,8 +373,8 @@ def run_numerals(rep, drv, cfg, per_chunk=400):
                     s = "".join(c["s"])
                     sig = {"fam": "numeral", "fn": fn, "cls": c["cls"], "why": "no-error" if e["k"] == "err" else ("unexpected-error" if not ok else "")}
                     lua = {"tonumber": "return tonumber(%s)", "mul": "return %s * 1", "unm": "return -%s"}.get(fn)
-                    rep.violation(sig, {"cmd": "lua-run", "lua": (lua % lua_string(c["s"])) if lua else "return " + s, "string": s,
-                                        "expected": show(e), "observed": show_obs(ok, val)})
+                    rep.violation(sig, {"cmd": "lua-run", "kind": "expr", "lua": (lua % lua_string(c["s"])) if lua else "return " + s, "string": s,
+                                        "exp": e, "expected": show(e), "observed": show_obs(ok, val)})
     cov["states"] += res.distinct
     cov["transitions"] += res.generated
     cov["configs"].append({"cfg": cfg, "numeral_strings": len(allc), "tlc_wall_s": round(res.wall, 1), "mismatching": nbad})
@@ -467,6 +467,37 @@ def check_for(e, evs, mode, K):
     return None
 
 
+def replay(prop, path, family="num"):
+    """./check Cxx --replay <file>: run the recorded case again on the current tree and compare it with the recorded
+    expectation of the spec (exit 1 while the discrepancy is still there, 0 when it is gone)."""
+    with open(path) as f:
+        r = json.load(f)["replay"]
+    drv = build_driver()
+    if r.get("kind") == "expr":
+        body = r["lua"]
+        o = run_lua_cases(drv, [{"id": 0, "src": "emit(pcall(function() %s end))" % body, "timeout": 10000}], nproc=1)[0]
+        if o.get("timeout") or o.get("crash") or o.get("panic") or not o.get("events"):
+            print("STILL-FAILING: hang or crash: %s" % json.dumps({k: o.get(k) for k in ("timeout", "panic", "errstr")}))
+            return 1
+        ev = o["events"][0]
+        ok, val = ev[0], (ev[1] if len(ev) > 1 else None)
+        if matches(r["exp"], ok, val) is False:
+            print("STILL-FAILING: %s gives %s, expected %s" % (body, show_obs(ok, val), show(r["exp"])))
+            return 1
+        return 0
+    if r.get("kind") == "for":
+        o = run_lua_cases(drv, [{"id": 0, "src": r["program"], "timeout": 5000}], nproc=1)[0]
+        if o.get("timeout") or o.get("crash") or o.get("panic") or not o.get("ok"):
+            print("STILL-FAILING: %s hangs or crashes" % r["lua"])
+            return 1
+        why = check_for(r["exp"], o["events"], r["mode"], r["K"])
+        if why:
+            print("STILL-FAILING: %s: %s" % (r["lua"], why))
+            return 1
+        return 0
+    raise Infra("unknown replay kind in %s" % path)
+
+
 def run_for(rep, drv, tier, per_chunk=60):
     cov = rep.cov
     cfg = FOR_CONFIGS[tier]
@@ -533,7 +564,7 @@ def run_for(rep, drv, tier, per_chunk=60):
                 nbad += 1
                 kind = "int" if (ca == "int" and cs == "int") else "float"
                 sig = {"fam": "for", "loop": kind, "why": why, "start": ca, "limit": cb, "step": cs, "mode": mode}
-                rep.violation(sig, {"cmd": "lua-run", "lua": src, "program": render_for(lat, [it], mode, K), "mode": mode,
+                rep.violation(sig, {"cmd": "lua-run", "kind": "for", "lua": src, "program": render_for(lat, [it], mode, K), "mode": mode, "exp": e, "K": K,
                                     "expected": ("values " + "; ".join(show(x) for x in e["v"]) + (" (then not determined)" if e["und"] else "")) if e["k"] == "vals" else show(e),
                                     "observed": evs if st == "bad" else [[x[1]["s"]] + x[2:] for x in evs]})
     cov["states"] += res.distinct
